@@ -49,6 +49,12 @@ var algs = []algT{
 	{"SHA256-RSA", gx509.SHA256WithRSA, "rsa"},
 	{"SHA384-RSA", gx509.SHA384WithRSA, "rsa"},
 	{"SHA256-RSAPSS", gx509.SHA256WithRSAPSS, "rsa"},
+	{"SHA1-RSA", gx509.SHA1WithRSA, "rsa"},
+	{"SHA512-RSA", gx509.SHA512WithRSA, "rsa"},
+	{"SHA384-RSAPSS", gx509.SHA384WithRSAPSS, "rsa"},
+	{"SHA512-RSAPSS", gx509.SHA512WithRSAPSS, "rsa"},
+	{"ECDSA-SHA1", gx509.ECDSAWithSHA1, "ecdsa"},
+	{"ECDSA-SHA512", gx509.ECDSAWithSHA512, "ecdsa"},
 	{"ECDSA-SHA256", gx509.ECDSAWithSHA256, "ecdsa"},
 	{"ECDSA-SHA384", gx509.ECDSAWithSHA384, "ecdsa"},
 }
@@ -1133,7 +1139,7 @@ func c09objects(c *harness.Ctx, s *signer) {
 var Prop = &harness.Prop{
 	ID:          "C09",
 	Level:       "exploration",
-	Rule:        "one-at-a-time product: 58 template variations (serials incl. negative/20-byte, names, validity boundaries, every KeyUsage bit, every ExtKeyUsage, basic constraints/path lengths, SAN kinds, name constraints, policies, CRL DP/AIA, extra extension, key ids) x signer {SM2, RSA-2048, P-256, P-384} x signature algorithm {unset + the signer's family; all 9 incl. mismatching ones on the base template}; CSRs (5 templates) and CRLs (CreateCRL, CreateRevocationList x 9 algorithms x 3 revoked sets) likewise. For every object inside the premise: creation, parse-back field by field, verification under the issuer, failure under other keys. Fault enumeration: every byte of the signed part and of the signatureValue BIT STRING (tag, length, unused-bits octet, contents) of one certificate, one certificate request and one revocation list per signer x {b^1,b^0x80,00,ff} must fail to parse or verify; the unused-bits octet set to 1..7 on 10 objects of each kind. Bundles: every ordered pair of certificates from all template variations (plus a CA without key id and a leaf without extensions) parsed by ParseCertificates must equal the single parses. Distinct/non-trivial = distinct case labels / mutated DERs. Added: certificate requests as a product of subject x SANs x extra extensions x attributes (6 attribute shapes incl. an existing extensionRequest), each template object used twice; certificates with every field set and each generated extension replaced in turn through ExtraExtensions by a donor value: the replaced one carries the donor value, all others are byte-identical to the baseline, no extension OID twice. Signers behind an opaque crypto.Signer (SM2, P-256, RSA); revoked entries with per-entry extensions.",
+	Rule:        "one-at-a-time product: 58 template variations (serials incl. negative/20-byte, names, validity boundaries, every KeyUsage bit, every ExtKeyUsage, basic constraints/path lengths, SAN kinds, name constraints, policies, CRL DP/AIA, extra extension, key ids) x signer {SM2, RSA-2048, P-256, P-384} x signature algorithm {unset + the signer's family; all 9 incl. mismatching ones on the base template}; CSRs (5 templates) and CRLs (CreateCRL, CreateRevocationList x 9 algorithms x 3 revoked sets) likewise. For every object inside the premise: creation, parse-back field by field, verification under the issuer, failure under other keys. Fault enumeration: every byte of the signed part and of the signatureValue BIT STRING (tag, length, unused-bits octet, contents) of one certificate, one certificate request and one revocation list per signer x {b^1,b^0x80,00,ff} must fail to parse or verify; the unused-bits octet set to 1..7 on 10 objects of each kind. Bundles: every ordered pair of certificates from all template variations (plus a CA without key id and a leaf without extensions) parsed by ParseCertificates must equal the single parses. Distinct/non-trivial = distinct case labels / mutated DERs. Added: certificate requests as a product of subject x SANs x extra extensions x attributes (6 attribute shapes incl. an existing extensionRequest), each template object used twice; certificates with every field set and each generated extension replaced in turn through ExtraExtensions by a donor value: the replaced one carries the donor value, all others are byte-identical to the baseline, no extension OID twice. Signers behind an opaque crypto.Signer (SM2, P-256, RSA); revoked entries with per-entry extensions. The algorithm alphabet covers every RSA PKCS#1 v1.5 hash from SHA-1 to SHA-512, all three RSA-PSS hashes, and ECDSA with SHA-1/256/384/512, besides the three SM2 algorithms and unset.",
 	Assumptions: []string{"RSA/ECDSA issuer certificates are created with Go's crypto/x509 and parsed by the package", "signature values are randomised inside the library (not observed)"},
 	Bounds: func(tier string) string {
 		if tier == "thorough" {
